@@ -166,25 +166,38 @@ Qed.
 
 Definition fs_listing (self : fsreg) : list (string * bool) := map fst (fsr_listing self).
 
-Lemma filterdir_files self p f x :
-  map fi_name (fs_filterdir self p f x) = fs_files (glob_matches (fsr_exts self)) (fs_listing self).
+(* the patterns _files builds from the extensions select what glob_matches selects *)
+Lemma files_glob self n : existsb (fun p => glob1 p n) (fsreg_files self) = glob_matches (fsr_exts self) n.
+Proof.
+  unfold fsreg_files, glob_matches. induction (fsr_exts self) as [|e l IH]; cbn [map existsb]; [reflexivity|].
+  rewrite IH. reflexivity.
+Qed.
+
+Lemma filterdir_files self p x :
+  map fi_name (fs_filterdir self p (fsreg_files self) x) = fs_files (glob_matches (fsr_exts self)) (fs_listing self).
 Proof.
   unfold fs_filterdir, fs_files, fs_listing. rewrite map_map. cbn [fi_name].
-  induction (fsr_listing self) as [|[[n b] r] l IH]; cbn; [reflexivity|].
-  destruct (b && glob_matches (fsr_exts self) n); cbn; now rewrite IH.
+  induction (fsr_listing self) as [|[[n b] r] l IH]; cbn [filter map fst snd]; [reflexivity|].
+  rewrite files_glob. destruct (b && glob_matches (fsr_exts self) n); cbn [map fst]; now rewrite IH.
+Qed.
+
+(* the _files property as regenerated: "*." + extension for every extension, in order *)
+Lemma FilesystemRegistry_files_eq self : FilesystemRegistry_files self = Ok (fsreg_files self).
+Proof.
+  unfold FilesystemRegistry_files, fsreg_files. rewrite (py_mapM_map fmt_glob_ext) by reflexivity. reflexivity.
 Qed.
 
 Theorem FilesystemRegistry_iter_eq self :
   FilesystemRegistry_iter self = Ok (fs_iter splitext_stem (glob_matches (fsr_exts self)) (fs_listing self)).
 Proof.
-  unfold FilesystemRegistry_iter, fs_iter. rewrite <- (filterdir_files self "/" (fsreg_files self) ["*"%string]).
+  unfold FilesystemRegistry_iter, fs_iter. rewrite FilesystemRegistry_files_eq. cbn [bind]. rewrite <- (filterdir_files self "/" ["*"%string]).
   rewrite (py_for0_map (fun f => splitext_stem (fi_name f))) by reflexivity. cbn [app bind]. now rewrite map_map.
 Qed.
 
 Theorem FilesystemRegistry_len_eq self :
   FilesystemRegistry_len self = Ok (Z.of_nat (fs_len (glob_matches (fsr_exts self)) (fs_listing self))).
 Proof.
-  unfold FilesystemRegistry_len, fs_len. rewrite <- (filterdir_files self "/" (fsreg_files self) ["*"%string]).
+  unfold FilesystemRegistry_len, fs_len. rewrite FilesystemRegistry_files_eq. cbn [bind]. rewrite <- (filterdir_files self "/" ["*"%string]).
   now rewrite map_length.
 Qed.
 
@@ -201,7 +214,7 @@ Theorem FilesystemRegistry_getitem_eq self k :
   | None => Err (XKeyError (KeyStr k))
   end.
 Proof.
-  unfold FilesystemRegistry_getitem, fs_lookup. rewrite <- (filterdir_files self "/" (fsreg_files self) ["*"%string]).
+  unfold FilesystemRegistry_getitem, fs_lookup. rewrite FilesystemRegistry_files_eq. cbn [bind]. rewrite <- (filterdir_files self "/" ["*"%string]).
   induction (fs_filterdir self "/" (fsreg_files self) ["*"%string]) as [|f l IH]; cbn [py_for map find bind]; [reflexivity|].
   unfold py_splitext at 1. cbn [fst snd]. unfold py_eq, PyEq_string.
   destruct (String.eqb (splitext_stem (fi_name f)) k) eqn:E.
